@@ -30,7 +30,8 @@ def operand(cls):
 #   kind 'query'   : pure; result is a python value of type `rtype`
 # `V` = ival(old(self)); operands are referred to by ival(<name>).
 # ---------------------------------------------------------------------------------------------------------------------
-V = 'ival(old(self))'
+V = 'ival(old(self))'      # in ensures
+V0 = 'ival(self)'          # in raises conditions (evaluated over the entry state)
 
 
 def _new(params, value, raises=None, extra=None):
@@ -48,7 +49,8 @@ def _inplace(params, value, raises=None, extra=None):
 def _query(params, rtype, value, raises=None, extra=None):
     e = {'value': value, 'type': 'type(result) is %s' % rtype}
     e.update(extra or {})
-    return {'kind': 'query', 'params': params, 'raises': raises or {}, 'ensures': e}
+    return {'kind': 'query', 'params': params, 'raises': raises or {}, 'ensures': e,
+            'rtype': {'type(None)': 'none'}.get(rtype, rtype)}
 
 
 MODULUS_RAISES = {'ZeroDivisionError': ('iff', 'ival(%s) == 0'), 'ValueError': ('iff', 'ival(%s) < 0')}
@@ -106,22 +108,22 @@ CLAUSES = {
     '__lshift__': _new({'pos': 'T'}, 'ival(result) == %s * pow2(ival(pos))' % V, raises={'ValueError': ('iff', 'ival(pos) < 0')}),
     '__ilshift__': _inplace({'pos': 'T'}, 'ival(self) == %s * pow2(ival(pos))' % V, raises={'ValueError': ('iff', 'ival(pos) < 0')}),
     'get_bit': _query({'n': 'T'}, 'bool', 'result == ((%s // pow2(ival(n))) %% 2 == 1)' % V,
-                      raises={'ValueError': ('iff', '%s < 0 or ival(n) < 0' % V)}),
+                      raises={'ValueError': ('iff', '%s < 0 or ival(n) < 0' % V0)}),
     'is_odd': _query({}, 'bool', 'result == (%s %% 2 == 1)' % V),
     'is_even': _query({}, 'bool', 'result == (%s %% 2 == 0)' % V),
-    'size_in_bits': _query({}, 'int', 'spec.integer.is_bit_size(%s, result)' % V, raises={'ValueError': ('iff', '%s < 0' % V)}),
-    'size_in_bytes': _query({}, 'int', 'spec.integer.is_byte_size(%s, result)' % V, raises={'ValueError': ('iff', '%s < 0' % V)}),
+    'size_in_bits': _query({}, 'int', 'spec.integer.is_bit_size(%s, result)' % V, raises={'ValueError': ('iff', '%s < 0' % V0)}),
+    'size_in_bytes': _query({}, 'int', 'spec.integer.is_byte_size(%s, result)' % V, raises={'ValueError': ('iff', '%s < 0' % V0)}),
     'fail_if_divisible_by': _query({'small_prime': 'T'}, 'type(None)', 'result is None',
                                    raises={'ZeroDivisionError': ('iff', 'ival(small_prime) == 0'),
-                                           'ValueError': ('iff', 'ival(small_prime) != 0 and %s %% ival(small_prime) == 0' % V)}),
+                                           'ValueError': ('iff', 'ival(small_prime) != 0 and %s %% ival(small_prime) == 0' % V0)}),
     # ---- modular inverse: no inverse ==> ValueError
     'inplace_inverse': _inplace({'modulus': 'T'}, '(%s * ival(self) - 1) %% ival(modulus) == 0' % V,
                                 raises={'ZeroDivisionError': ('iff', 'ival(modulus) == 0'),
-                                        'ValueError': ('iff', 'ival(modulus) < 0 or (ival(modulus) > 0 and gcd(%s, ival(modulus)) != 1)' % V)},
+                                        'ValueError': ('iff', 'ival(modulus) < 0 or (ival(modulus) > 0 and gcd(%s, ival(modulus)) != 1)' % V0)},
                                 extra={'range': '0 <= ival(self) and ival(self) < ival(modulus)'}),
     'inverse': _new({'modulus': 'T'}, '(%s * ival(result) - 1) %% ival(modulus) == 0' % V,
                     raises={'ZeroDivisionError': ('iff', 'ival(modulus) == 0'),
-                            'ValueError': ('iff', 'ival(modulus) < 0 or (ival(modulus) > 0 and gcd(%s, ival(modulus)) != 1)' % V)},
+                            'ValueError': ('iff', 'ival(modulus) < 0 or (ival(modulus) > 0 and gcd(%s, ival(modulus)) != 1)' % V0)},
                     extra={'range': '0 <= ival(result) and ival(result) < ival(modulus)'}),
     'gcd': _new({'term': 'T'}, 'ival(result) == gcd(%s, ival(term))' % V,
                 extra={'divides': 'ival(result) >= 0 and (ival(result) > 0 ==> (%s %% ival(result) == 0 and ival(term) %% ival(result) == 0))' % V,
@@ -130,8 +132,8 @@ CLAUSES = {
     # ---- byte conversion (both byte orders; negative ==> ValueError; too large for block_size ==> ValueError)
     'to_bytes': _query({'block_size': 'nat', 'byteorder': ORDER}, 'bytes',
                        '(be(result) if byteorder == "big" else le(result)) == %s' % V,
-                       raises={'ValueError': ('iff', '%s < 0 or byteorder not in ("big", "little") or (block_size > 0 and %s >= pow2(8 * block_size))' % (V, V))},
-                       extra={'length': 'len(result) == block_size if block_size > 0 else spec.integer.is_byte_size(%s, len(result))' % V}),
+                       raises={'ValueError': ('iff', '%s < 0 or byteorder not in ("big", "little") or (block_size > 0 and %s >= pow2(8 * block_size))' % (V0, V0))},
+                       extra={'length': '(len(result) == block_size) if block_size > 0 else spec.integer.is_byte_size(%s, len(result))' % V}),
 }
 
 # how `self` is framed per back end
@@ -148,6 +150,13 @@ def interface_contracts(reg, cls, frame, names=None, self_type=None, per_method=
         params = {k: t.replace('T', T) for k, t in d['params'].items()}
         kwargs = dict(params=params, raises=d['raises'], ensures=d['ensures'],
                       modifies=(list(frame) if d['kind'] == 'inplace' else []), self_type=self_type)
+        # what callers see of the result
+        if d['kind'] == 'inplace':
+            kwargs['returns'] = 'self'
+        elif d['kind'] == 'new':
+            kwargs['result'] = 'obj:' + (self_type[4:] if self_type else cls)
+        else:
+            kwargs['result'] = d['rtype']
         kwargs.update((per_method or {}).get(nm, {}))
         out.append(reg.add(Contract(cls + '.' + nm, **kwargs)))
     return out
@@ -161,15 +170,91 @@ NATIVE_HELP = {
 }
 
 
+# static / class methods and the constructor: same clauses for every back end, parametrised by the class
+def static_contracts(reg, cls, impl_cls=None, help_=None):
+    """cls: the class the objects belong to; impl_cls: the class whose source defines the function (default cls)"""
+    impl = impl_cls or cls
+    help_ = help_ or {}
+    T = operand(cls)
+    out = []
+    out.append(reg.add(Contract(impl + '.__init__', params={'value': T}, raises={},
+                                ensures={'value': 'ival(self) == ival(value)'}, modifies=FRAME['native'] if '_mpz' not in str(help_.get('frame')) else None,
+                                self_type='obj:' + cls, **help_.get('__init__', {}))))
+    out.append(reg.add(Contract(impl + '.from_bytes', params={'cls': class_value(cls), 'byte_string': 'bytes', 'byteorder': ORDER}
+                                if impl == IN else {'byte_string': 'bytes', 'byteorder': ORDER},
+                                raises={'ValueError': ('iff', 'byteorder not in ("big", "little")')},
+                                ensures={'value': 'ival(result) == (be(byte_string) if byteorder == "big" else le(byte_string))',
+                                         'type': 'type(result) is cls' if impl == IN else 'isinstance(result, %s)' % cls.split('.')[-1]},
+                                modifies=[], result='obj:' + cls, **help_.get('from_bytes', {}))))
+    # constant-time modular multiplication used by RSA decryption: odd positive modulus, fixed-length big-endian result
+    TM = help_.get('mult_operand', T)
+    out.append(reg.add(Contract(impl + '._mult_modulo_bytes', params={'term1': TM, 'term2': TM, 'modulus': TM},
+                                raises={'ZeroDivisionError': ('iff', 'ival(modulus) == 0'),
+                                        'ValueError': ('iff', 'ival(modulus) < 0 or (ival(modulus) > 0 and ival(modulus) % 2 == 0)')},
+                                ensures={'value': 'be(result) == (ival(term1) * ival(term2)) % ival(modulus)',
+                                         'length': 'spec.integer.is_byte_size(ival(modulus), len(result))',
+                                         'type': 'type(result) is bytes'},
+                                modifies=[], result='bytes', **help_.get('_mult_modulo_bytes', {'options': {'int_lemmas': []}}))))
+    return out
+
+
+# ---------------------------------------------------------------------------------------------------------------------
+# C18: IntegerBase.random / random_range  (entropy = ghost tapes, contracts/_intcommon.py)
+# ---------------------------------------------------------------------------------------------------------------------
+RF = 'kwarg("randfunc")'
+TP = 'tape_of(%s)' % RF                       # the tape the entropy must come from: the caller's, else the system's
+P0 = 'old(%s.g_pos)' % TP                     # its cursor at entry
+EB, MB = 'kwarg("exact_bits")', 'kwarg("max_bits")'
+BITS = '(%s if %s is not None else %s)' % (EB, EB, MB)
+EXACT = '(%s is not None)' % EB
+NB = '((%s + 7) // 8)' % BITS                 # bytes needed
+SB = '(%s - 8 * (%s - 1))' % (BITS, NB)       # significant bits of the first byte, 1..8
+SYS_UNTOUCHED = '(%s is not None) ==> systape().g_pos == old(systape().g_pos)' % RF
+
+
+def random_contracts(reg, cls=IN):
+    from ._intcommon import kw, TAPE_T
+    out = []
+    rest = 'tape(%s, %s + 1, %s - 1)' % (TP, P0, NB)
+    top = 'spec.integer.random_top(nth(tape(%s, %s, 1), 0), %s, %s)' % (TP, P0, SB, EXACT)
+    out.append(reg.add(Contract(
+        IB + '.random',
+        params={'cls': class_value(cls),
+                'kwargs': [kw(exact_bits='pos', randfunc=TAPE_T), kw(max_bits='pos', randfunc=TAPE_T), kw(exact_bits='pos'),
+                           kw(max_bits='pos'), kw(max_bits='pos', randfunc='none'), kw(randfunc=TAPE_T), kw(),
+                           kw(exact_bits='pos', max_bits='pos', randfunc=TAPE_T)]},
+        requires=['valid(%s)' % RF],
+        raises={'ValueError': ('iff', '(%s is None) == (%s is None)' % (EB, MB))},
+        on_raise={'ValueError': ['%s.g_pos == %s' % (TP, P0)]},
+        ensures={
+            # reads exactly ceil(bits/8) bytes from the caller's randfunc (from the system RNG only when none was given)
+            'reads': '%s.g_pos == %s + %s' % (TP, P0, NB),
+            'system_untouched': SYS_UNTOUCHED,
+            # the value: first byte masked to the significant bits (top bit forced for exact_bits), the rest as read, big-endian
+            'value': 'ival(result) == spec.integer.random_value(nth(tape(%s, %s, 1), 0), %s, %s, %s)' % (TP, P0, rest, BITS, EXACT),
+            'range': '0 <= ival(result) and ival(result) < pow2(%s)' % BITS,
+            'exact': '%s ==> pow2(%s - 1) <= ival(result)' % (EXACT, BITS),
+            'type': 'type(result) is cls'},
+        lemmas={'exit': {'cat': 'be_cat(bytes([%s]), %s)' % (top, rest),
+                         'bits': 'pow2_add(%s, 8 * (%s - 1))' % (SB, NB)}},
+        modifies=['kwargs', TP + '.g_pos'], result='obj:' + cls,
+        options={'enum_shift': 8, 'int_lemmas': list(range(0, 9))})))
+    return out
+
+
 def registry(self_class=IN):
     reg = add_entropy_model(base_registry())
     reg.add(ClassContract(IN, fields={'_value': 'int'}))
     reg.add(ClassContract(IC, fields={'_value': 'int'}))
     interface_contracts(reg, IN, FRAME['native'], self_type=('obj:' + self_class) if self_class != IN else None, per_method=NATIVE_HELP)
+    # (finding F1, repaired in the tree by 97d6d02d: IntegerNative._mult_modulo_bytes(int, IntegerNative, int) raised
+    # TypeError while the other two back ends returned the product; the clause below is for int|Integer operands)
+    static_contracts(reg, IN)
+    random_contracts(reg, IN)
     return reg
 
 
-SIMPLE = [n for n in CLAUSES]
+SIMPLE = [n for n in CLAUSES if n not in ('lcm',)] + ['__init__', 'from_bytes', '_mult_modulo_bytes']
 
 
 def units(prop, tier):
